@@ -14,5 +14,7 @@ Step == /\ n < MaxOps /\ n' = n + 1
            \/ \E ct \in CTs : g' = Force(g, ct) /\ Emit("force", [ct |-> ct])
            \/ \E k \in 1..Len(Others("")) : g.t # "GeometryCollection" /\ g' = MkGC(<<g, Others("")[k]>>) /\ Emit("mkgc", Others("")[k])
            \/ \E k \in 1..Len(Others(g.t)) : g.t \in {"Point","LineString","Polygon"} /\ g' = MkMulti(<<g, Others(g.t)[k]>>) /\ Emit("mkmulti", Others(g.t)[k])
+           \/ \E k \in 1..Len(Others("LineString")) : g.t = "LineString" /\ g.c # <<>> /\ Others("LineString")[k].c # <<>>
+                                                        /\ g' = MkPoly(<<g, Others("LineString")[k]>>) /\ Emit("mkpoly", Others("LineString")[k])
 Spec == Init /\ [][Step]_<<g,n>>
 =============================================================================
